@@ -317,6 +317,10 @@ pub const ELEM_NAMES: &[&str] = &[
     "aпривет", "é", "naïve", "日本語", "a日本", "x:привет", "ÉCOLE", "école", "straße", "İi",
     // names that vanish or shrink under case conversion
     "_", "__", "_.", "_-_", "x:_", "_1", "A", "a_", "a__b",
+    // names that are concatenations / prefixes of other names (separator-less keys collide on them)
+    "ab", "bc", "abc", "ca", "items", "item", "sid", "i", "dx", "idx",
+    // names other vocabularies treat specially
+    "br", "hr", "img", "meta", "html", "body", "script",
 ];
 
 pub const ATTR_NAMES: &[&str] = &[
@@ -324,6 +328,7 @@ pub const ATTR_NAMES: &[&str] = &[
     "foo", "FOO", "a-b", "a_b", "a.b", "text", "text_attr", "b_attr", "foo_1", "привет", "value", "xmlns:x", "loop",
     "aпривет", "abcdeé", "é", "日本語", "a日本", "xmlnsé", "xmlns:é", "xml:é", "ÉCOLE", "école",
     "_", "__", "_.", "x:_", "_1", "a__b",
+    "ab", "bc", "abc", "x", "i", "dx", "idx", "sid", "d",
 ];
 
 const TEXTS: &[&str] = &[
@@ -411,6 +416,8 @@ impl GenCfg {
                 &["h:b", "b", "h:a", "a", "x:a"],
                 &["привет", "Привет"],
                 &["a1", "a_1", "a"],
+                &["a", "b", "c", "ab", "bc", "abc"],
+                &["item", "items", "id", "sid", "i", "dx"],
             ];
             let g = *rng.pick(groups);
             for n in g {
